@@ -30,8 +30,60 @@ class Mut:
         self.desc, self.apply = desc, apply
 
 
+OPS = {"set": 1}
+
+SWAPS = [("antecedence", "consequence"), ("make_A_then_B", "make_A_then_not_B"), ("make_A_then_not_B", "make_not_A_or_B"), ("make_not_A_or_B", "make_A_then_B"),
+         ("v_cnf_dict", "f_cnf_dict"), ("f_cnf_dict", "nf_cnf_dict"), ("nf_cnf_dict", "v_cnf_dict"), ("vMin", "fMin"), ("query_v_cnf", "query_f_cnf"),
+         ("min", "max"), ("any", "all"), ("issubset", "issuperset"), ("keys", "values"), ("world_acc", "world_rej"), ("append", "extend"), ("add", "discard"),
+         ("GE", "GT"), ("GT", "GE"), ("LE", "LT"), ("And", "Or"), ("push", "pop"), ("expired", "remaining_ms"), ("is_sat", "is_unsat"), ("union", "intersection")]
+
+
+def mutants2_of(fn):
+    """Second operator family: domain swaps (attribute / function names of the same kind), a local used in place of
+    another local, a guard dropped (body kept), a guarded early exit removed, else-branch dropped."""
+    nodes = list(ast.walk(fn))
+    out = []
+    swap = {}
+    for a, b in SWAPS:
+        swap.setdefault(a, []).append(b)
+        swap.setdefault(b, []).append(a)
+    assigned = []
+    for n in nodes:
+        if isinstance(n, ast.Name) and isinstance(n.ctx, ast.Store) and n.id not in assigned:
+            assigned.append(n.id)
+    params = [a.arg for a in fn.args.args if a.arg != "self"]
+    pool = [x for x in assigned + params if not x.startswith("_")]
+    for i, n in enumerate(nodes):
+        ln = getattr(n, "lineno", 0)
+        if isinstance(n, ast.Attribute) and n.attr in swap:
+            for b in dict.fromkeys(swap[n.attr]):
+                out.append((f"{ln}: .{n.attr} -> .{b}", i, lambda x, b=b: setattr(x, "attr", b)))
+        elif isinstance(n, ast.Name) and isinstance(n.ctx, ast.Load) and n.id in swap and n.id not in pool:
+            for b in dict.fromkeys(swap[n.id]):
+                out.append((f"{ln}: {n.id} -> {b}", i, lambda x, b=b: setattr(x, "id", b)))
+        elif isinstance(n, ast.Constant) and isinstance(n.value, str) and n.value in swap:
+            for b in dict.fromkeys(swap[n.value]):
+                out.append((f"{ln}: '{n.value}' -> '{b}'", i, lambda x, b=b: setattr(x, "value", b)))
+        elif isinstance(n, ast.Name) and isinstance(n.ctx, ast.Load) and n.id in pool and len(pool) > 1:
+            k = pool.index(n.id)
+            other = pool[(k + 1) % len(pool)]
+            if other != n.id:
+                out.append((f"{ln}: name {n.id} -> {other}", i, lambda x, other=other: setattr(x, "id", other)))
+        elif isinstance(n, ast.If) and not n.orelse and not isinstance(n.test, ast.Constant):
+            body_exits = isinstance(n.body[-1], (ast.Return, ast.Raise, ast.Continue, ast.Break))
+            if body_exits:
+                out.append((f"{ln}: remove guarded exit", i, "DELETE"))
+            else:
+                out.append((f"{ln}: drop guard (body unconditional)", i, "UNGUARD"))
+        elif isinstance(n, ast.If) and n.orelse and not (len(n.orelse) == 1 and isinstance(n.orelse[0], ast.If)):
+            out.append((f"{ln}: drop else branch", i, "DROPELSE"))
+    return out
+
+
 def mutants_of(fn):
     """Yield (description, mutator(node_copy)) for one function; mutators are located by a pre-order index."""
+    if OPS["set"] == 2:
+        return mutants2_of(fn)
     nodes = list(ast.walk(fn))
     out = []
     REL = {ast.Lt: [ast.LtE, ast.GtE], ast.LtE: [ast.Lt], ast.Gt: [ast.GtE, ast.LtE], ast.GtE: [ast.Gt], ast.Eq: [ast.NotEq], ast.NotEq: [ast.Eq],
@@ -122,6 +174,15 @@ def apply_mutant(m, tmp):
             node = list(ast.walk(fn))[idx]
             if how == "DELETE":
                 _Deleter(node).visit(fn)
+            elif how == "UNGUARD":
+                class U(ast.NodeTransformer):
+                    def visit_If(self, n):
+                        if n is node:
+                            return n.body
+                        return self.generic_visit(n)
+                U().visit(fn)
+            elif how == "DROPELSE":
+                node.orelse = []
             elif how == "DROPNOT":
                 class R(ast.NodeTransformer):
                     def visit_UnaryOp(self, n):
@@ -165,6 +226,8 @@ def main():
             jobs = int(a.split("=", 1)[1])
         elif a.startswith("--limit="):
             limit = int(a.split("=", 1)[1])
+        elif a.startswith("--ops="):
+            OPS["set"] = int(a.split("=", 1)[1])
     if files is None:
         files = [os.path.relpath(f, ROOT) for f in sorted(glob.glob(os.path.join(ROOT, "inference", "*.py")))] + ["parser/Wrappers.py", "parser/myVisitor.py"]
     muts = build_mutants(files)
